@@ -118,6 +118,16 @@ pub struct Background {
 }
 
 #[derive(Clone, Debug, Serialize, Deserialize)]
+pub struct InjectSpec {
+    pub round: i32,
+    pub to: Addr,
+    pub from: Addr,
+    pub msg: crate::wire::WMessage,
+    /// handed over before (true) or after (false) the authentic packets of that poll
+    pub before: bool,
+}
+
+#[derive(Clone, Debug, Serialize, Deserialize)]
 pub struct Scenario {
     pub name: String,
     pub pred: Pred,
@@ -147,6 +157,8 @@ pub struct Scenario {
     /// (node, frame): that node's game perturbs its hash from that frame on
     pub diverge: Option<(usize, i32)>,
     pub max_points: u32,
+    #[serde(default)]
+    pub inject: Vec<InjectSpec>,
 }
 
 impl Scenario {
@@ -175,6 +187,7 @@ impl Scenario {
             max_sync_rounds: 200,
             diverge: None,
             max_points: u32::MAX,
+            inject: Vec::new(),
         }
     }
 
